@@ -12,6 +12,7 @@ import Pms.Props.C14
 #print axioms Pms.TimeCorr.C14_single_frame
 #print axioms Pms.TimeCorr.C14_refines
 #print axioms Pms.TimeCorr.C14_lag0_is_one
+#print axioms Pms.TimeCorr.C14_lag0_zero_iff
 #print axioms Pms.TimeCorr.C14_time_axis
 #print axioms Pms.TimeCorr.C14_complex
 #print axioms Pms.TimeCorr.C14_real
